@@ -89,6 +89,7 @@ func runC11(out *bufio.Writer, st *Stats, r *Rng, k Kind, ch, L, K, G, M, procs 
 	pool := NewPool(k, signal.Allocator{Channels: ch, Length: L, Capacity: K})
 	var mu sync.Mutex
 	var events []poolEvent
+	var crashes []string
 	ids := map[uintptr]int{}
 	// Headers are NOT kept alive by the harness: pooled buffers must be able to become garbage (the
 	// property quantifies over collections that drop and re-create them). If an address is reused by a
@@ -163,11 +164,30 @@ func runC11(out *bufio.Writer, st *Stats, r *Rng, k Kind, ch, L, K, G, M, procs 
 						stampOK = false
 					}
 				}
-				// sometimes return a slice from frame 0 instead of the buffer itself
+				// now and then a put that the allocator must reject (a window that does not start at frame
+				// 0 has a smaller capacity): it panics, the caller recovers and goes on holding its buffer;
+				// nothing may have entered the pool (the log has no event for it)
+				if K >= 2 && shapeOK && lr.Intn(8) == 0 {
+					win := b.Slice(1, K)
+					if p := try(func() { putTo.Put(win) }); p == "" {
+						stampOK = false
+					}
+					runtime.Gosched()
+					for i := 0; i < b.Len(); i++ {
+						if b.Sample(i) != stamp {
+							stampOK = false
+						}
+					}
+				}
 				mu.Lock()
 				events = append(events, poolEvent{false, g, id, false, stampOK, true})
 				mu.Unlock()
-				putTo.Put(b)
+				if p := try(func() { putTo.Put(b) }); p != "" {
+					// a buffer obtained from this pool must be accepted back by it
+					mu.Lock()
+					crashes = append(crashes, "put_of_a_buffer_obtained_from_the_pool_panicked:"+p)
+					mu.Unlock()
+				}
 				if lr.Intn(4) == 0 {
 					runtime.Gosched()
 				}
@@ -215,7 +235,11 @@ func runC11(out *bufio.Writer, st *Stats, r *Rng, k Kind, ch, L, K, G, M, procs 
 				mu.Lock()
 				events = append(events, poolEvent{false, g, id, false, true, true})
 				mu.Unlock()
-				pool.Put(b)
+				if p := try(func() { pool.Put(b) }); p != "" {
+					mu.Lock()
+					crashes = append(crashes, "put_of_a_buffer_obtained_from_the_pool_panicked:"+p)
+					mu.Unlock()
+				}
 				w2.Done()
 			}(g)
 		}
@@ -243,6 +267,10 @@ func runC11(out *bufio.Writer, st *Stats, r *Rng, k Kind, ch, L, K, G, M, procs 
 		} else {
 			fmt.Fprintf(out, "rput %d %d %d\n", e.g, e.id, b2i(e.ok1))
 		}
+		st.lines++
+	}
+	if len(crashes) > 0 {
+		fmt.Fprintf(out, "gencrash %s (%d times)\n", crashes[0], len(crashes))
 		st.lines++
 	}
 	st.Ops["rget-new"] += nNew
@@ -397,6 +425,9 @@ func runC19(w *World, st *Stats, r *Rng, k, dk Kind, R, W, iters, procs int, car
 		iters = iters/20 + 2
 	}
 	K := roFrames + W*perWriter + r.Range(0, 2)
+	if W == 0 || carve {
+		K += r.Range(1, 9) // spare capacity the readers slice into
+	}
 	w.Case(fmt.Sprintf("C19 %s ch%d K%d R%d W%d iters%d procs%d", k, ch, K, R, W, iters, procs))
 	st.shape("R%d/W%d/procs%d/carve%v", R, W, procs, carve)
 	baseLen := K
@@ -459,6 +490,19 @@ func runC19(w *World, st *Stats, r *Rng, k, dk Kind, R, W, iters, procs int, car
 				s := ro.Slice(lr.Intn(roFrames), roFrames)
 				if s.Capacity() > K {
 					bad = true
+				}
+				// windows that reach into the spare capacity of the shared buffer (still only headers)
+				if spare := ro.Capacity() - roFrames; spare > 0 {
+					a := lr.Intn(roFrames)
+					e := roFrames + 1 + lr.Intn(spare)
+					s2 := ro.Slice(a, e)
+					if s2.Length() != e-a || ro.Length() != roFrames {
+						bad = true
+					}
+					s3 := b.Slice(a, e)
+					if s3.Length() != e-a {
+						bad = true
+					}
 				}
 				for c := 0; c < ch; c++ {
 					if ro.ChanSample(c, 0) != refSamples[c] {
